@@ -256,11 +256,13 @@ def run(ctx):
             chunks = [s[0] for s in steps if s[0]]
             if delivery == "glued":
                 chunks = [b"".join(chunks)]
-            c, trace, zlog = new_client(kind, **opts)
+            fmode = ("standin", "instance", "class")[(len(meta) // 2) % 3]
+            ctx.count("factory_" + fmode)
+            c, trace, zlog = new_client(kind, factory=fmode, **opts)
             c.factory.username = "user" if (sum(len(x) for x in chunks) + len(chunks)) % 3 else None      # None: the user name is prompted for (ARD only)
             per = feed_impl(c, trace, chunks)
             flat = [t for q in per for t in q]
-            rp = {"input": {"kind": kind, "password": pw, "delivery": delivery, "banner": list(p["ver"]), "offer": p["offer"], "scheme": p["scheme"],
+            rp = {"input": {"kind": kind, "password": pw, "factory": {"standin": "plain object with the option attributes", "instance": "VNCDoToolFactory subclass, options set on the instance", "class": "VNCDoToolFactory subclass, options as class attributes"}[fmode], "delivery": delivery, "banner": list(p["ver"]), "offer": p["offer"], "scheme": p["scheme"],
                             "result": p["result"], "reason_len": len(p["reason"]), "server_messages": [hx(s[0]) for s in steps]},
                   "how": "scripted server following RFC 6143 7.1 against the real %s on an in-memory transport" % kind}
             # the property
